@@ -30,8 +30,8 @@ ASSUMPTIONS = [
     "Test* vs add-then-Compute: 4 eps (sum|S12| + area0) and 4 eps perimeter; exact relations: 1 ulp(area0) (4 for Test*)",
     "non-mutation is observed through a twin object that receives only the mutating operations and through a fresh object rebuilt from the model (bit-exact comparison)",
     "two KNOWN-defect regimes, decided from (back end, ellipsoid, the polygon's edges) only and checked in this order, collect every oracle:/law: failure under one key each "
-    "(monitor name in detail.monitor): regime:C08/rhumb-exact/prolate-ellipsoid-edge-within-1e-8deg-of-equator (Rhumb exact=true, f<0, an edge with both latitudes within 1e-8 deg "
-    "of the equator and different) and regime:C08/geod-exact/strongly-prolate-ellipsoid-inverse-edge-within-1e-8deg-of-equator (GeodesicExact or Geodesic(exact=true), f<-0.2, an inverse "
+    "(monitor name in detail.monitor): regime:C08/rhumb-exact/prolate-ellipsoid-edge-near-equator-same-side (Rhumb exact=true, f<0, an edge with different latitudes on one side of the equator whose predicted accuracy loss eps*length/|lat_min| exceeds a quarter of its tolerance "
+    "(always for latitude 0)) and regime:C08/geod-exact/strongly-prolate-ellipsoid-inverse-edge-within-1e-8deg-of-equator (GeodesicExact or Geodesic(exact=true), f<-0.2, an inverse "
     "edge with both latitudes within 1e-8 deg of the equator, not both 0); outside them the normal keys apply; history:/sentinel: monitors are never re-keyed",
     "rhumb AddEdge/TestEdge from a pole vertex and rhumb courses that come within 1e-7 deg (rectifying latitude) of a pole are not issued (documented NaN longitude, property C09)",
 ]
